@@ -17,7 +17,7 @@ Modes == {<<-1, 0>>, <<1, 0>>, <<NONE, 0>>, <<-1, 1>>}
 Init == /\ \E lens \in LenVecs : case = <<"seed", lens>>
         /\ exp = <<"seed">> /\ phase = 0
 Next == \/ /\ phase = 0
-           /\ \E dt \in DTs, k \in {1, 2} : exp' = <<"seed", dt, k>>
+           /\ \E dt \in DTs, k \in {1, 2, 3} : (k = 3 => IsFlt(dt)) /\ exp' = <<"seed", dt, k>>
            /\ phase' = 1 /\ UNCHANGED case
         \/ /\ phase = 1
            /\ LET lens == case[2]  dt == exp[2]  k == exp[3] IN
